@@ -45,7 +45,7 @@ func randomCases(tier string) int {
 func (check) Exhaustive(string) bool { return false }
 
 func (check) Rule() string {
-	return "chains of 2-4 correlated trees (operand k+1 = mutation of operand k w.p. 3/4; 3 keys repeated at every depth; nil/{}/[]/primitive/object/list clashes at the same key; w.p. 1/4 per pair an explicit empty list planted in operand k against nil/{}/[] at the same place of operand k+1) merged under one of the 5 global policies (w.p. 1/3 the policy changes from step to step), each operand given as map, interface-keyed map, reflect.StructOf struct, *Config or child Config; w.p. 1/8 a step with the target itself as source is inserted before another step; w.p. 1/3 the very same *Config object of an earlier step is merged once more after at least one other merge; after every step the target is observed by Unpack into map and slice and compared with the merge model, and the empty-list laws (kept / taken, through keys and list positions) are asserted on the raw unpacked data; plus identity/self-merge/append-length laws; w.p. 1/4 the chain (strings without '$', half of the time nil/primitive/empty planted over a container of an earlier operand) is repeated with VarExp on and one operand (2/3: the first) holding 1-2 of its non-empty containers by reference ${r<i>} (1/3 through a second reference), compared with the model after every step without the r<i> settings; w.p. 1/6 (other chains) a final merge between two handles of the target (root or Child of a non-empty container reached through keys; nested pairs preferred) under a random policy, expectation: merge of a snapshot of the source, observed through the target handle and the root; plus (thorough: all, quick: a seed-chosen slice of) pairs of small trees (<=3 nodes below the root, 2 keys) x 5 policies, observed after each of the two merges. Non-trivial = at least two operands are non-empty and share a key or both carry a list; distinct = distinct (policies, operands, representations)."
+	return "chains of 2-4 correlated trees (operand k+1 = mutation of operand k w.p. 3/4; 3 keys repeated at every depth; nil/{}/[]/primitive/object/list clashes at the same key; w.p. 1/4 per pair an explicit empty list planted in operand k against nil/{}/[] at the same place of operand k+1, w.p. 1/4 a nil planted in operand k+1 at the place of a primitive of operand k) merged under one of the 5 global policies (w.p. 1/3 the policy changes from step to step), each operand given as map, interface-keyed map, reflect.StructOf struct, *Config, child Config or (2/10) 'spelled': nil as typed nil pointer, [] as typed nil/empty slice or empty array, {} as nil/empty typed map or empty struct, objects as run-time built structs whose field types are these types (zero-valued fields), pointers to values - a deviation at such a step is classified by re-rendering the operand with one spelling class at a time; w.p. 1/8 a step with the target itself as source is inserted before another step; w.p. 1/3 the very same *Config object of an earlier step is merged once more after at least one other merge; after every step the target is observed by Unpack into map and slice and compared with the merge model, and the empty-list laws (kept / taken, through keys and list positions) are asserted on the raw unpacked data; plus identity/self-merge/append-length laws; w.p. 1/4 the chain (strings without '$', half of the time nil/primitive/empty planted over a container of an earlier operand) is repeated with VarExp on and one operand (2/3: the first) holding 1-2 of its non-empty containers by reference ${r<i>} (1/3 through a second reference), compared with the model after every step without the r<i> settings; w.p. 1/6 (other chains) a final merge between two handles of the target (root or Child of a non-empty container reached through keys; nested pairs preferred) under a random policy, expectation: merge of a snapshot of the source, observed through the target handle and the root; plus (thorough: all, quick: a seed-chosen slice of) pairs of small trees (<=3 nodes below the root, 2 keys) x 5 policies, observed after each of the two merges. Non-trivial = at least two operands are non-empty and share a key or both carry a list; distinct = distinct (policies, operands, representations)."
 }
 
 func (check) Assumptions() []string {
@@ -56,6 +56,7 @@ func (check) Assumptions() []string {
 		"ReplaceValues: the statement describes the dictionaries by their union and the policies by what they do to lists; what ReplaceValues does to dictionaries is taken from the option's documentation - a non-empty dictionary of B replaces the dictionary of A wholesale at every level, an empty B changes nothing",
 		"a *Config source merged a second time must act like the tree it was built from (the model merges that tree again); a source that is the target itself, a part of it or contains it is merged as it is when Merge is called (snapshot)",
 		"references (VarExp) only as a second way to hold a container: a setting ${r} evaluating to an object/list merges like that object/list; everything else about expansion is C02/C08",
+		"Go spellings taken as the same tree: a nil pointer of any type = nil, a nil or empty slice / empty array = [], a nil or empty map / empty struct = {}, a pointer to a value = the value (top-level sources and inline fields stay C05's)",
 		"keys are non-numeric and contain no path separator (numeric keys are list positions, gaps are filled with nil: C20/C05); lists are short (the cost of growing very long lists is no subject of the statement); how Go values denote a tree (nil pointers, inline fields, typed nil sources) is C05's, Unpack into *Config fields C10's subject",
 	}
 }
@@ -173,7 +174,7 @@ func source(r *rand.Rand, t *model.Node, rep string) (interface{}, string, error
 	return t.ToGo(), "map", nil
 }
 
-var reps = []string{"map", "map", "map", "mapi", "struct", "typed", "config", "child"}
+var reps = []string{"map", "map", "map", "mapi", "struct", "typed", "config", "child", "spelled", "spelled"}
 
 func nonEmpty(t *model.Node) bool { return len(t.D) > 0 || len(t.A) > 0 }
 
@@ -273,6 +274,12 @@ func (check) Run(seed int64, tier string, idx int, verbose bool) harness.Result 
 			res.Ev("planted_emptiness_clashes", 1)
 		}
 	}
+	// nil in one operand at the place of a primitive of the one before
+	for i := 1; i < len(ops); i++ {
+		if r.Intn(4) == 0 && plantNilOverPrimitive(r, ops[i-1].tree, ops[i].tree) {
+			res.Ev("planted_nil_over_primitive", 1)
+		}
+	}
 	// chains repeated with references: a later operand says nil (mostly) at
 	// the place of a container of an earlier one
 	if withRefs && r.Intn(2) == 0 {
@@ -370,6 +377,8 @@ func runChain(res *harness.R, r *rand.Rand, base int, ops []operand, withRefs, s
 			var rep string
 			var b *model.Node
 			var reusedCfg *ucfg.Config
+			var spellSeed int64
+			var spellUsed []string
 			if op.self {
 				src, rep, b = c, "self", m.Copy()
 				selfSeen = true
@@ -383,7 +392,13 @@ func runChain(res *harness.R, r *rand.Rand, base int, ops []operand, withRefs, s
 					reusedSteps++
 				} else {
 					var err error
-					src, rep, err = source(r, op.tree, op.rep)
+					if op.rep == "spelled" && !(len(op.tree.D) > 0 && len(op.tree.A) > 0) {
+						spellSeed = r.Int63()
+						src, spellUsed = spelled(spellSeed, op.tree, nil)
+						rep = "spelled"
+					} else {
+						src, rep, err = source(r, op.tree, op.rep)
+					}
 					if err != nil {
 						usedReps = append(usedReps, rep)
 						res.Violate("source-build-error", "building operand %d failed: %v; %s", i, err, desc())
@@ -398,6 +413,22 @@ func runChain(res *harness.R, r *rand.Rand, base int, ops []operand, withRefs, s
 			}
 			usedReps = append(usedReps, rep)
 			trees[i] = b
+			for _, class := range spellUsed {
+				res.Ev("spelled:"+class, 1)
+			}
+			// a deviation at a step whose source uses other spellings is
+			// classified by re-rendering the source (once, on demand)
+			var blame *string
+			spellSuffix := func() string {
+				if rep != "spelled" {
+					return ""
+				}
+				if blame == nil {
+					b := spellingBlame(ops[:i+1], trees[:i+1], spellSeed, spellUsed)
+					blame = &b
+				}
+				return *blame
+			}
 			aBefore := m.Copy()
 			res.Eval(1)
 			if err := c.Merge(src, pol.opts...); err != nil {
@@ -423,6 +454,12 @@ func runChain(res *harness.R, r *rand.Rand, base int, ops []operand, withRefs, s
 						note = fmt.Sprintf(" (the source unpacked to %s when built, to %s now, err=%v)", orig[op.reuse], now, err)
 					}
 				}
+				if sig == "merge-model-mismatch" {
+					if sfx := spellSuffix(); sfx != "" {
+						sig += sfx
+						note = fmt.Sprintf(" (spellings used: %v)", spellUsed)
+					}
+				}
 				if sig == "merge-model-mismatch" && selfSeen && plainTwinAgrees(res, ops[:i+1], trees[:i+1]) {
 					// the same steps with the target's contents handed in as plain data are fine
 					sig = "merge-model-mismatch:only-with-target-as-its-own-source"
@@ -431,7 +468,7 @@ func runChain(res *harness.R, r *rand.Rand, base int, ops []operand, withRefs, s
 				return
 			}
 			if !op.self {
-				emptinessLaws(res, prev, got, aBefore, b, pol.p, desc)
+				emptinessLaws(res, prev, got, aBefore, b, pol.p, desc, spellSuffix)
 				if len(res.Violations) > 0 {
 					return
 				}
@@ -686,7 +723,7 @@ func runEnum(res *harness.R, seed int64, tier string, chunk int, verbose bool) {
 					}
 					emptinessLaws(res, prev, got, aBefore, t, pol.p, func() string {
 						return fmt.Sprintf("enumerated pair: policy=%v A=%s B=%s", pol.p, a, b)
-					})
+					}, nil)
 					prev = got
 				}
 			})
